@@ -172,6 +172,13 @@ func C13(c *core.Ctx) {
 	c.RuleText = "instances: every '+tlv-model' struct discovered (floor 79), its parser and encoder in zz_generated.go. Non-trivial = a model with ≥1 tagged field (table rows to compare) or a parser with a default branch."
 	p := c.P
 	models, genFiles := discoverModels(p)
+	// ---- R13.12 (shared with C03 R3.1) generated encoders size a Name field by summing
+	// Component.EncodingLength and write it with Component.EncodeInto (hand-written in
+	// std/encoding): both use the TLV length code for the component's length, or the encoder
+	// writes a different number of bytes than it announced
+	c.Import(C03, "R13.12", "the component sizer and writer that every generated Name encoder calls disagree about the length code: the encoder yields a different number of bytes than it announced", 2, func(k string) bool {
+		return strings.HasPrefix(k, "R3.1:length-as-tlnum:Component.") || strings.HasPrefix(k, "R3.1:length-as-nat:std/encoding.Component.")
+	})
 	c.Floor("R13.1", "generated files", genFiles, 11)
 	c.Floor("R13.1", "tlv models discovered", len(models), 79)
 	// ---- R13.7 in a map field the value element is looked for in a loop that treats the
